@@ -723,20 +723,66 @@ example : ¬ WF wrapMem := by decide
 example : Region.new 0xFFFF_FFFF_FFFF_FFFC { base := 0x2000, bytes := [5, 6, 7, 8], bm := none } = none := by
   decide
 
-/-- four bytes from `2^64 - 2`: two at the top, then — through the `GuestAddress(0)` arm — two at 0 -/
-example : GMem.tryAccessLoop trivCb 4 0xFFFF_FFFF_FFFF_FFFE wrapMem () 0xFFFF_FFFF_FFFF_FFFE 0 =
+/-- the loop as it stood before fix dfb8366 (defect D9): the cursor was allowed to wrap to exactly 0 and the walk went on -/
+def loopBeforeFix {σ : Type} (f : GMem → σ → Nat → Nat → Nat → Nat → GMem × σ × Res Nat)
+    (count addr : Nat) (m : GMem) (st : σ) (cur total : Nat) : GMem × σ × Res Nat :=
+  match m.findRegion cur with
+  | .panic => (m, st, .panic)
+  | .err e => (m, st, .err e)
+  | .ok none => if total = 0 then (m, st, .err (.invalidGuestAddress addr)) else (m, st, .ok total)
+  | .ok (some idx) =>
+    match m[idx]? with
+    | none => (m, st, .panic)
+    | some region =>
+      match region.toRegionAddr cur with
+      | none => (m, st, .panic)
+      | some start =>
+        if region.len < start ∨ count < total then (m, st, .panic)
+        else
+          let cap := region.len - start
+          let len := min cap (count - total)
+          match f m st total len start idx with
+          | (m', st', .ok 0) => (m', st', .ok total)
+          | (m', st', .ok (k + 1)) =>
+            let n := k + 1
+            if total + n < U then
+              let x := total + n
+              if x < count then
+                let (c', ovf) := overflowingAdd cur n
+                if c' = 0 ∨ ovf = false then loopBeforeFix f count addr m' st' c' x
+                else (m', st', .err .guestAddressOverflow)
+              else if x = count then (m', st', .ok x)
+              else (m', st', .err .callbackOutOfRange)
+            else (m', st', .err .callbackOutOfRange)
+          | (m', st', .err e) => (m', st', .err e)
+          | (m', st', .panic) => (m', st', .panic)
+termination_by count - total
+decreasing_by omega
+
+/-- D9, as found: four bytes from `2^64 - 2` were two at the top and then — through the `GuestAddress(0)` arm — two at 0 -/
+theorem wrap_before_fix : loopBeforeFix trivCb 4 0xFFFF_FFFF_FFFF_FFFE wrapMem () 0xFFFF_FFFF_FFFF_FFFE 0 =
     (wrapMem, (), .ok 4) := by
   have h1 : wrapMem.findRegion 0xFFFF_FFFF_FFFF_FFFE = .ok (some 1) := by decide
   have h2 : wrapMem.findRegion 0 = .ok (some 0) := by decide
   have e0 : wrapMem[0]? = some { start := 0, mem := { base := 0x1000, bytes := [1, 2, 3, 4], bm := none }, id := 1 } := rfl
   have e1 : wrapMem[1]? = some { start := 0xFFFF_FFFF_FFFF_FFFC, mem := { base := 0x2000, bytes := [5, 6, 7, 8], bm := none }, id := 2 } := rfl
   have ov : overflowingAdd 0xFFFF_FFFF_FFFF_FFFE 2 = (0, true) := by decide
+  rw [loopBeforeFix, h1]
+  simp [e1, trivCb, Region.toRegionAddr, checkedSub, Region.checkAddress, Region.addressInRange,
+    Region.len, U, ov]
+  rw [loopBeforeFix, h2]
+  simp [e0, trivCb, Region.toRegionAddr, checkedSub, Region.checkAddress, Region.addressInRange,
+    Region.len, U]
+
+/-- after the fix the walk ends at the last address: two bytes, like at any other hole -/
+theorem no_wrap_after_fix : GMem.tryAccessLoop trivCb 4 0xFFFF_FFFF_FFFF_FFFE wrapMem () 0xFFFF_FFFF_FFFF_FFFE 0 =
+    (wrapMem, (), .ok 2) := by
+  have h1 : wrapMem.findRegion 0xFFFF_FFFF_FFFF_FFFE = .ok (some 1) := by decide
+  have e1 : wrapMem[1]? = some { start := 0xFFFF_FFFF_FFFF_FFFC, mem := { base := 0x2000, bytes := [5, 6, 7, 8], bm := none }, id := 2 } := rfl
+  have ov : overflowingAdd 0xFFFF_FFFF_FFFF_FFFE 2 = (0, true) := by decide
   rw [GMem.tryAccessLoop, h1]
   simp [e1, trivCb, Region.toRegionAddr, checkedSub, Region.checkAddress, Region.addressInRange,
     Region.len, U, ov]
-  rw [GMem.tryAccessLoop, h2]
-  simp [e0, trivCb, Region.toRegionAddr, checkedSub, Region.checkAddress, Region.addressInRange,
-    Region.len, U]
 
 /-- … whereas the loop without that arm reports `GuestAddressOverflow` -/
 example : loopStrict trivCb 4 0xFFFF_FFFF_FFFF_FFFE wrapMem () 0xFFFF_FFFF_FFFF_FFFE 0 =
@@ -1318,3 +1364,5 @@ end VmMem
 #print axioms VmMem.FlatLemmas.no_wrap_step
 #print axioms VmMem.FlatLemmas.flat_set
 #print axioms VmMem.FlatLemmas.flat_stored
+#print axioms VmMem.C03.wrap_before_fix
+#print axioms VmMem.C03.no_wrap_after_fix
